@@ -43,7 +43,8 @@ type prog struct {
 	NoVM    bool     `json:"no_vm,omitempty"` // calls exit()/die(): os.Exit would end the harness child
 	Gen     *genProg `json:"gen,omitempty"`
 
-	vmOutcome *Outcome // the unique outcome on a fresh VM with nothing run before (set by vmStream)
+	vmOutcome  *Outcome // the unique outcome on a fresh VM with nothing run before (set by vmStream)
+	vmUnstable string   // description of the outcomes when they were not unique
 }
 
 type repCase struct {
@@ -100,8 +101,11 @@ var exclusions = []exclusion{
 	{"writes-files-or-runs-commands", regexp.MustCompile(`(?i)\b(file_put_contents|fopen|fwrite|unlink|mkdir|rmdir|rename|copy|touch|chmod|chdir|putenv|exec|shell_exec|system|passthru|proc_open|popen)\s*\(`)},
 	{"reads-stdin-or-argv", regexp.MustCompile(`(?i)php://stdin|STDIN|readline\s*\(|\$argv|\$argc|\$_SERVER|\$_ENV|getenv\s*\(`)},
 	{"test-runner", regexp.MustCompile(`(?i)run_tests|scandir\s*\(|glob\s*\(`)},
-	{"known-residue-channel", regexp.MustCompile(`(?i)\b(ini_set|error_reporting|header_register_callback)\s*\(`)},
 }
+
+// Corpus files that use a listed residue channel, print process-wide object handles, or end the
+// process themselves are run in fresh processes only (not on successive VMs of one process).
+var procOnly = regexp.MustCompile(`(?i)\b(exit|die)\b|\b(ini_set|header_register_callback|spl_autoload_register|var_dump|putenv|chdir|set_time_limit)\s*\(|\b(include|require)(_once)?\b|\$_(SERVER|GET|POST|ENV|COOKIE|REQUEST|FILES|SESSION)\b|\$GLOBALS|\$argv`)
 
 func excluded(src string) string {
 	for _, e := range exclusions {
@@ -316,7 +320,7 @@ func (e *env) buildPool() []*prog {
 		kept++
 		f := filepath.Join(c.Repo, in.Name)
 		pool = append(pool, &prog{Name: in.Name, Origin: "corpus", File: f, Dir: filepath.Dir(f), Src: in.Src,
-			MaskLog: strings.Contains(in.Src, "Log::"), NoVM: exitRe.MatchString(in.Src)})
+			MaskLog: strings.Contains(in.Src, "Log::"), NoVM: procOnly.MatchString(in.Src)})
 	}
 	var rs []string
 	for k, v := range reasons {
